@@ -697,9 +697,11 @@ def stored_values_ok(sat, log):
     return bad
 
 
-def orbit_query(rng, hours=None):
+def orbit_query(rng, as_float=None):
+    """as_float=True is the sharp observer: int() truncation hides most differences of the node time"""
     return {"m": "get_orbit_number", "tk": rng.choice(["np", "py"]),
-            "us": [rng.randrange(-86400 * 10 ** 6, 2 * 86400 * 10 ** 6)], "tbus": rng.random() < 0.3, "as_float": rng.random() < 0.3}
+            "us": [rng.randrange(-86400 * 10 ** 6, 2 * 86400 * 10 ** 6)], "tbus": rng.random() < 0.3,
+            "as_float": (rng.random() < 0.6) if as_float is None else as_float}
 
 
 def sample(rng, xs, n):
@@ -745,7 +747,7 @@ def concurrency(ctx, sats, judge, spy, mode, budget, scale=1):
     for si, sat in enumerate(sats):
         lead = si == 0
         pool = screen(sat, gen_pool(rng))
-        qa, qb, qc = orbit_query(rng), orbit_query(rng), orbit_query(rng)
+        qa, qb, qc = orbit_query(rng, True), orbit_query(rng, True), orbit_query(rng, True)
         if any(sat.fresh(q) is None for q in (qa, qb, qc)):
             continue
         n, own, firsts, _ = points_of(sat, qa, occ=2 if thorough else 1)
